@@ -19,7 +19,8 @@ A particle set is a Gaussian mixture (one belief `(mean, cov)` and one log-weigh
 Parameters, with the contract the theorems assume (BFL/Props/C08.lean):
   * `gp`, `gc`   the wrapped Gaussian prediction / correction, a function of the input mixture and of
                  the previous content of the output mixture (some steps leave parts of it unwritten);
-  * `sq i`       the square-root factor the code obtains from Eigen's LDLᵀ (`Pᵀ L √D`): `S Sᵀ = P`;
+  * `sq i`       the square-root factor the code obtains from Eigen's LDLᵀ (`Pᵀ L √max(D,0)`, pivots
+                 clamped at zero since fix 5d4e99d): `S Sᵀ = P`;
   * `z i`        the standard-normal draws of particle `i` (`mean.size()` draws per particle, in
                  particle order, from `std::normal_distribution`);
   * `inv`        Eigen's `.inverse()`;
@@ -134,6 +135,62 @@ def gpfGaussTrans (inv : Mat α n n → Mat α n n) (F Q : Mat α n n)
 def gpfGaussLik {m : Nat} (invR : Mat α m m → Mat α m m) (scale : α) (H : Mat α m n) (R : Mat α m m)
     (y : Vec α m) (x : Fin k → Vec α n) : Bool × Vec α k :=
   (true, Vec.of fun i => scale * gpfDensity invR (y.sub (H.mulVec (x i))) Vec.zero R)
+
+/-- `GaussianLikelihood::likelihood`, branch by branch: the four model calls (`measure`,
+    `predictedMeasure`, `innovation`, `getNoiseCovarianceMatrix`) may each report failure, in which
+    case the likelihood is invalid (early return); otherwise `gpfGaussLik`. -/
+def gpfGaussLikFull {m : Nat} (measOk predOk innovOk covOk : Bool) (invR : Mat α m m → Mat α m m) (scale : α)
+    (H : Mat α m n) (R : Mat α m m) (y : Vec α m) (x : Fin k → Vec α n) : Bool × Vec α k :=
+  if measOk = false then (false, Vec.zero)
+  else if predOk = false then (false, Vec.zero)
+  else if innovOk = false then (false, Vec.zero)
+  else if covOk = false then (false, Vec.zero)
+  else gpfGaussLik invR scale H R y x
+
+/-- `WhiteNoiseAcceleration`: state transition matrix, blocks `[[1, T], [0, 1]]` on the diagonal
+    (one block per coordinate: state dimension 2, 4 or 6). -/
+def gpfWnaF (T : α) : Mat α n n :=
+  Mat.of fun i j =>
+    if i.val / 2 = j.val / 2 then
+      (if i.val % 2 = 0 then (if j.val % 2 = 0 then 1 else T) else (if j.val % 2 = 0 then 0 else 1))
+    else 0
+
+/-- `WhiteNoiseAcceleration`: noise covariance, blocks `q̃ · [[T³/3, T²/2], [T²/2, T]]`. -/
+def gpfWnaQ (T q : α) : Mat α n n :=
+  Mat.of fun i j =>
+    if i.val / 2 = j.val / 2 then
+      q * (if i.val % 2 = 0 then (if j.val % 2 = 0 then T * T * T / (1 + 1 + 1) else T * T / (1 + 1))
+           else (if j.val % 2 = 0 then T * T / (1 + 1) else T))
+    else 0
+
+/-- the shipped model's transition density from its two constructor parameters -/
+def gpfWnaTrans (inv : Mat α n n → Mat α n n) (T q : α) (prev cur : Fin k → Vec α n) : Vec α k :=
+  gpfGaussTrans inv (gpfWnaF T) (gpfWnaQ T q) prev cur
+
+/-- The collaborators a `GPFCorrection` object owns (likelihood model, wrapped Gaussian correction,
+    transition-density model).  The random stream is carried by the events (`z`). -/
+structure GpfCorrObj (α : Type) (n k : Nat) where
+  lik : (Fin k → Vec α n) → Bool × Vec α k
+  gc : GStep α n k
+  trans : (Fin k → Vec α n) → (Fin k → Vec α n) → Vec α k
+
+/-- `GPFCorrection(GPFCorrection&&)`: every member is taken from the source. -/
+def gpfMoveConstruct (src : GpfCorrObj α n k) : GpfCorrObj α n k := src
+
+/-- `GPFCorrection::operator=(GPFCorrection&&)` (after fix 2d4bf06): likelihood model, Gaussian
+    correction, state model and generator are all moved from the source. -/
+def gpfMoveAssign (_dst src : GpfCorrObj α n k) : GpfCorrObj α n k :=
+  { lik := src.lik, gc := src.gc, trans := src.trans }
+
+/-- the assignment as it was before 2d4bf06 (`likelihood_model_` not moved); kept to state why that
+    line is needed (`gpf_move_assign_needs_likelihood_model`) -/
+def gpfMoveAssignKeepLik (dst src : GpfCorrObj α n k) : GpfCorrObj α n k :=
+  { lik := dst.lik, gc := src.gc, trans := src.trans }
+
+/-- a correction performed by an object -/
+def gpfObjCorrect (eps : α) (inv : Mat α n n → Mat α n n) (o : GpfCorrObj α n k)
+    (sq : Fin k → Mat α n n) (z : Fin k → Vec α n) (pred out : PSet α n k) : PSet α n k :=
+  gpfCorrect eps inv o.gc sq z o.lik o.trans pred out
 
 /-- One event of a filtering history, with everything the step consumes. -/
 inductive GpfEvent (α : Type) (n k : Nat) where
